@@ -479,6 +479,34 @@ def run(ctx):
     pv_ = effect_blocks(prog, rqv, Effect('policy.validate', callees={'tako::internal::common::resources::request::AllocationRequest::validate'}))
     ctx.ob('R09.14', 'ResourceRequest::validate|checks every amount', bool(pv_), 'the gateway validation calls AllocationRequest::validate (zero amounts are refused there) for the entries of the request', rqv.loc())
 
+    # ---- R09.15 wall-clock arithmetic does not underflow
+    ctx.rule('R09.15', 'Duration - Duration panics on underflow: in the tako runtime every such subtraction is dominated by a comparison of its two operands (or is written saturating / checked); clocks keep running while messages are handled, so "the limit has not passed yet" is not an invariant')
+    DSUB = ('time::Duration as core::ops::arith::Sub>::sub',)
+    n15 = 0
+    for p_, b_ in prog.bodies.items():
+        if not p_.startswith((T + 'worker::', T + 'server::', T + 'scheduler::')) or is_test_util(p_) or '::tests::' in p_ or '::_::' in p_ or p_.endswith('::dump'):
+            continue
+        for bi_, t_, c_ in b_.calls():
+            if bi_ not in b_.reachable() or not (c_ or '').endswith(DSUB):
+                continue
+            n15 += 1
+            la, lb = [op_local(a_) for a_ in t_['args'][:2]]
+            sa = b_.derived_from(la, through_mutation=False) if la is not None else set()
+            sb = b_.derived_from(lb, through_mutation=False) if lb is not None else set()
+            guarded = False
+            for x_, t2_, c2_ in b_.calls():
+                if x_ in b_.reachable() and (callee_decl(t2_) or '').endswith(('PartialOrd::lt', 'PartialOrd::le', 'PartialOrd::gt', 'PartialOrd::ge')) and b_.dominates(x_, bi_):
+                    l1, l2 = [op_local(a_) for a_ in t2_['args'][:2]]
+                    s1 = b_.derived_from(l1, through_mutation=False) if l1 is not None else set()
+                    s2 = b_.derived_from(l2, through_mutation=False) if l2 is not None else set()
+                    # operands are usually passed by reference to copies: compare through the common Duration-typed sources
+                    dur = lambda ss: {x for x in ss if 'time::Duration' in b_.locals[x][0]}
+                    if (dur(s1) & dur(sa) and dur(s2) & dur(sb)) or (dur(s1) & dur(sb) and dur(s2) & dur(sa)):
+                        guarded = True
+            ctx.ob('R09.15', f'{owner_fn(prog, p_).split("::")[-2]}::{owner_fn(prog, p_).split("::")[-1]}|Duration subtraction guarded', guarded,
+                   f'{owner_fn(prog, p_).split("::")[-1]}: `a - b` on Durations is preceded by a comparison of a and b (otherwise it panics as soon as b exceeds a, e.g. a worker that handles a message after its time limit has passed)', b_.loc(bi_))
+    ctx.floor('R09.15', n15, 1, 'Duration subtractions in the tako runtime')
+
     # ---- R09.6 / R09.7
     ctx.rule('R09.6', 'no panicking task lookup inside a loop whose body may remove tasks from the core (ids collected before the loop can be gone when their turn comes)')
     ctx.rule('R09.7', 'TaskQueue::remove asserts membership in one arm: every call site must be guarded by a test that implies the task is queue-resident (or no arm may diverge)')
